@@ -88,6 +88,17 @@ int main(int argc, char **argv) {
       uint64_t h = t[0] == "H" ? util::MurmurHash64A(buf, raw.size(), seed) : util::MurmurHashNative(buf, raw.size(), seed);
       std::cout << h << "\n";
       free(buf);
+    } else if (t[0] == "A" && t.size() == 4) {
+      // the string placed at offset <align> of a heap block: start address = 16-aligned base + align
+      size_t align = strtoul(t[1].c_str(), 0, 10) % 16;
+      std::string raw = Arg(t[3]);
+      char *buf = (char *)malloc(raw.size() + align + 1);
+      memcpy(buf + align, raw.data(), raw.size());
+      uint64_t seed = strtoull(t[2].c_str(), 0, 10);
+      uint64_t a = util::MurmurHash64A(buf + align, raw.size(), seed), b = util::MurmurHashNative(buf + align, raw.size(), seed);
+      if (a != b) std::cout << "NATIVE-DIFFERS "; 
+      std::cout << a << "\n";
+      free(buf);
     } else if (t[0] == "M" && t.size() == 4) {
       std::string raw = Arg(t[3]);
       std::cout << util::MurmurHash64A(raw.data(), strtoull(t[2].c_str(), 0, 10), strtoull(t[1].c_str(), 0, 10)) << "\n";
